@@ -165,6 +165,128 @@ def _resolve_local(fn, e, depth=0):
     return e, None
 
 
+REFERENCE_PROBES = [
+    'A1', '$B$12', 'C$3', '$D4', 'Z9', 'AA10', 'AB1', 'XFD1048576', 'Sheet1!C3', "'My sheet'!D4", "'S 2'!$A$1", 'Data!AA7',
+    'A1:A5', 'B2:F2', 'Sheet1!A1:A9', "'My sheet'!C3:C4", '$A$1:$A$3', 'A1:B2', 'B2:D10', 'Sheet1!A1:C3', "'S 2'!B2:AA4", '$A$1:$C$3',
+    'Z1:AB2', 'A:B', 'C:C', "'My sheet'!A:C", 'Sheet1!B:D', 'Y:AB',
+]
+TITLE_INDEX = {'Sheet1': 0, 'My sheet': 1, 'S 2': 2, 'Data': 3}
+OWN_SHEET = 1           # the sheet of the cell that holds the formula
+
+
+def _spelled(ref: str):
+    """(sheet index, [(column index, row index | None) ...]) a reference text spells"""
+    sheet = OWN_SHEET
+    if '!' in ref:
+        pre, ref = ref.rsplit('!', 1)
+        sheet = TITLE_INDEX[pre.strip("'")]
+    corners = []
+    for part in ref.replace('$', '').split(':'):
+        letters = ''.join(ch for ch in part if ch.isalpha())
+        digits = ''.join(ch for ch in part if ch.isdigit())
+        n = 0
+        for ch in letters:
+            n = n * 26 + (ord(ch) - 64)
+        corners.append((n - 1, int(digits) - 1 if digits else None))
+    return sheet, corners
+
+
+def r1_eval(run: Run, src, g):
+    """which cells a reference token denotes, decided by abstract evaluation (engine F): the probe reference is lexed by the
+    evaluated lexer, the accessor property of the token (cell / range / matrix) is evaluated as written, the Cell objects it builds
+    are normalised by the evaluated handle_cell -- sheet, column and row of every corner must be the ones the text spells, the
+    sheet of the formula cell when the reference names none"""
+    from ..finite import AV, const_av, Unknown, AbsRaise
+    from . import lexer_eval
+    hc = src.func('handle_cell')
+    cell_ci = src.cls('Cell')
+    fields = [(st.target.id, st.value) for st in cell_ci.node.body if isinstance(st, ast.AnnAssign) and isinstance(st.target, ast.Name)]
+    titles = AV('dict', items=tuple(AV('tuple', items=(const_av(k), const_av(v))) for k, v in TITLE_INDEX.items()))
+    for ref in REFERENCE_PROBES:
+        ev, _ = lexer_eval.build(src, g)
+        ev.max_depth = 14
+        ev.classes = {'Cell': {n: m.node for n, m in cell_ci.methods.items()}}
+        for m_ in (hc.module, cell_ci.module):
+            for st in m_.tree.body:
+                if isinstance(st, ast.FunctionDef):
+                    ev.functions.setdefault(st.name, st)
+
+        def make_cell(args, kwargs, ev=ev):
+            vals = dict(zip([n for n, _ in fields], args))
+            vals.update(kwargs)
+            at = {}
+            for n, d in fields:
+                if n in vals:
+                    at[n] = vals[n]
+                elif d is not None:
+                    at[n] = ev.ev(d, {})
+                else:
+                    raise AbsRaise('TypeError', f'Cell() missing {n}')
+            c = ev.new_obj('Cell', at)
+            if '__post_init__' in cell_ci.methods:
+                ev.call_bound(cell_ci.methods['__post_init__'].node, c, [])
+            return c
+        ev.constructors = {'Cell': make_cell}
+        in_cell = make_cell([const_av(OWN_SHEET), const_av(7), const_av(8)], {})
+        ev.obj_attrs(in_cell)['_handled_identifiers'] = const_av(True)
+        construct = f'reference/{ref}'
+        want_sheet, want_corners = _spelled(ref)
+        try:
+            toks = ev.unbox(ev.call_method('parse', [const_av(ref), in_cell], AV('other', val=('class', 'Lexer'))))
+            if toks.items is None or len(toks.items) != 1 or toks.items[0].kind != 'obj':
+                raise Unknown(f'the reference is not lexed as one token ({len(toks.items or ())})')
+            tok = toks.items[0]
+            prop = REFS.get(tok.val[2])
+            if prop is None:
+                raise Unknown(f'the reference is lexed as {tok.val[2]}')
+            res = ev.ev(ast.parse(f'tok.{prop}', mode='eval').body, {'tok': tok})
+            cells = [res] if res.kind == 'obj' else list(res.items or ())
+            got = []
+            for c in cells:
+                if c.kind != 'obj':
+                    raise Unknown('an accessor result that is not a Cell')
+                ev.call_function(ev.functions['handle_cell'], [c, titles])
+                at = ev.obj_attrs(c)
+                got.append(tuple(None if at[k].kind == 'none' else at[k].val for k in ('title', 'column', 'row')))
+        except Unknown as u:
+            raise AnalysisError('C02.R1', f'{construct}: the abstraction cannot follow the accessor ({u})')
+        except AbsRaise as e:
+            got = f'raises {e.exc}'
+        want = [(want_sheet, c, r) for c, r in want_corners]
+        ci_ = src.cls(tok.val[2]) if not isinstance(got, str) or 'tok' in dir() else None
+        loc = loc_of(ci_.module.path, ci_.methods[REFS[tok.val[2]]].node) if ci_ is not None and tok.val[2] in REFS else ''
+        run.check(got == want, 'C02.R1', construct, 'denoted-cells',
+                  f'in a formula on sheet {OWN_SHEET} the reference {ref} denotes (sheet, column, row) {got}; it spells {want} (0-based; a '
+                  f'whole column has no row)', fact=f'-> {got}', loc=loc)
+
+
+def r1_any(run: Run, src, g):
+    sub = Run('tmp', run.tier, run.seed, quiet=True)
+    evaluated = False
+    try:
+        r1_eval(sub, src, g)
+        evaluated = True
+    except AnalysisError as e:
+        run.note(f'C02.R1: the reference accessors by structure only ({e.reason[:120]})')
+    if not evaluated:
+        return r1(run, src, g)
+    for o in sub.obligations:
+        if o['verdict'] == 'holds':
+            run.ok(o['rule'], o['construct'], o['fact'], loc=o['loc'])
+    for f_ in sub.findings:
+        run.bad(f_['rule'], f_['construct'], f_['sub'], f_['message'], loc=f_['loc'])
+    sub2 = Run('tmp', run.tier, run.seed, quiet=True)
+    try:
+        r1(sub2, src, g)
+    except AnalysisError as e:
+        run.note(f'C02.R1: the structural reading gave up ({e.reason[:120]}); the evaluated references decide')
+    for o in sub2.obligations:
+        if o['verdict'] == 'holds':
+            run.ok(o['rule'], o['construct'], o['fact'], loc=o['loc'])
+    for f_ in sub2.findings:
+        run.bad(f_['rule'], f_['construct'], f_['sub'], f_['message'], loc=f_['loc'])
+
+
 def r1(run: Run, src, g):
     fields = cell_field_order(src)
     n_idx = 0
@@ -817,7 +939,7 @@ def run(run: Run):
     run.rule('C02.R3', 'strict sheet-title resolution')
     run.rule('C02.R4', 'every branch of get_matrix returns rows of cells')
     run.rule('C02.R5', 'the extent of an area depends on coordinates and sizes only')
-    run.guard('C02.R1', r1, run, src, g)
+    run.guard('C02.R1', r1_any, run, src, g)
     run.guard('C02.R2', r2, run, src)
     run.guard('C02.R3', r3_both, run, src)
     run.guard('C02.R4', r4_r5, run, src)
